@@ -409,20 +409,17 @@ fn c03_addmod_reduced_operands() {
     verify(it, depth, gas, 3, 8, below, want);
 }
 
-/// ADDMOD / MULMOD with a zero modulus push zero (no kernel involved: the zero test comes first in ruint).
+/// ADDMOD with a zero modulus pushes zero and never reaches the division kernel.
+/// (MULMOD with a zero modulus also returns before any kernel, but CBMC still has to encode ruint's 512-bit product
+/// and reduction behind the test: 760 s and more than 6 GB — dropped by rule 8.2.)
 #[kani::proof]
 #[kani::unwind(34)]
 #[kani::stub(revm_primitives::ruint::Uint::div_rem, stub_div_rem_unreachable)]
-fn c03_addmod_mulmod_zero_modulus() {
+fn c03_addmod_zero_modulus() {
     let (a, b, below) = (any_w(), any_w(), any_w());
-    let mul: bool = kani::any();
     let (mut it, depth, gas) = setup(3, 4, a, b, ZERO, below);
     let mut host = NoHost;
-    if mul {
-        arithmetic::mulmod::<NoHost>(&mut it, &mut host);
-    } else {
-        arithmetic::addmod::<NoHost>(&mut it, &mut host);
-    }
+    arithmetic::addmod::<NoHost>(&mut it, &mut host);
     verify(it, depth, gas, 3, 8, below, ZERO);
 }
 
